@@ -23,6 +23,11 @@ CHECKS = {
    text="NOT proved: for generated pairs on which an independent exhaustive scan of the text's lightness line finds a witness (within CIEDE2000 1.5, clearing min+0.05), every mode must succeed and stay within 2.0. "
         "Quick ~950 witnessed cases x 3 modes, thorough ~35,000 x 3. Two genuine defects found this way were repaired (see known_findings.json).",
    note="oracles in /verif/oracles (float64), 0.01 dE slack; bounded to the generated cases and seeds.", ref='§8 C03, §9'),
+ 'C07': dict(cat='other', tech='z3 string-theory dispatch lemmas over the decision list extracted from the real AST + ring-normal-form conformance of the HSL arithmetic (engine B) + contract proofs of identity/blends (engine A) + exhaustive tables (engine D); tokenisation bounded (engine E)',
+   text="proved: every member of each CSS class reaches that class's branch (z3 strings; strip/lower image assumed); hsl_to_rgb == CSS Color 3 algorithm + nearest integer for every real hue and s,l in [0,1]; an 8-bit int triple parses to "
+        "itself; rgba = nearest integer of source-over, hsla = truncation over the rounded colour (<= 1.5); complete: 148 keywords x spellings, all #rgb, all 2^24 #rrggbb (thorough), all hex digit pairs. NOT provable with the installed solvers: "
+        "regex findall / replace+split tokenisation and float(str) - assumed and exercised by generated class members vs a reference CSS parser (bounded).",
+   note=TB + "reference CSS parser in /verif/oracles; tokenisation contract assumed (bounded check).", ref='§8 C07'),
  'C08': dict(cat='other', tech='bounded run-time contract: the real click command on an enumerated stylesheet corpus judged by independent oracles (engine E) + dataflow-structural obligations on the real AST of the per-rule logic (engine C)',
    text="the file-level clause quantifies over stylesheets as interpreted by tinycss2 (a proof would be about a model of that library): checked on a generated corpus (every colour spelling, custom properties chained / with "
         "fallback / undefined / shared, !important, repeated declarations, nesting <= 3, carry-through constructs, threshold-band pairs) x settings; counts vs an independent per-rule classification, report vs written file vs "
@@ -59,6 +64,10 @@ CHECKS = {
    text="for a list of symbolic length with 2-/3-element entries: every iteration appends exactly one element and it is ENTRY(item) from the statement (single-pair API result + label of the returned colour; invalid "
         "entries kept with a non-readable status), len(results) == len(pairs); ColorPair / make_readable / is_readable enter as function symbols of their arguments. Bounded twin on the real code (engine E).",
    note=TB + "determinism of the single-pair API (C15); never raises (C14).", ref='§8 C12'),
+ 'C13': dict(cat='proof', tech='contract-based deductive verification: wiring by ghost call traces and object identity on the real ASTs, blend arithmetic in exact non-linear real arithmetic (engine A, z3)',
+   text="ColorPair builds the background first and without context and the text over that very object; Color hands the parser the context's rgb iff valid; every alpha branch of the parser blends over exactly the supplied background "
+        "(white by default); rgba_to_rgb is the nearest integer of source-over, hsla_to_rgb its truncation over the rounded HSL colour (within 1.5 of the exact blend), alpha 1 / 0 exact. Bounded twin against the exact rational blend (engine E).",
+   note=TB + "reals for the blend arithmetic (float slack < 1e-12 stated); token extraction from strings is C07's bounded part.", ref='§8 C13'),
  'C14': dict(cat='proof', tech='contract-based deductive verification with tagged symbolic values and exception edges: VCs from the real ASTs of the parser stack (engine A, z3; exact non-linear arithmetic for the hsl range)',
    text="over the statement's input domain (any str; tuples/lists of length 0..5 of members with a symbolic tag int/bool/finite float/nan/+-inf/str/None) every function of the parser stack raises at most ValueError with a non-empty "
         "message and returns int triples in 0..255; Color.__init__ and ColorPair.__init__ raise nothing and establish the object invariant; invalid pairs give 'Not Readable', (None, False) and a kept bulk entry. "
@@ -98,8 +107,8 @@ man = {
            'baseline_off_cmd': 'cd /repo && /venv/bin/python -m pytest -ra -q -p no:cacheprovider --timeout=900 --continue-on-collection-errors',
            'source_commits': [], 'add_only': True},
  'engines': [
-   {'name': 'A pyvc', 'path': 'vf/symex.py', 'serves_properties': ['C01', 'C02', 'C04', 'C05', 'C06', 'C10', 'C12', 'C14', 'C16', 'C17'], 'kind_free_text': 'AST -> verification conditions, modular contracts, z3/cvc5'},
-   {'name': 'B ringconf', 'path': 'vf/ring.py', 'serves_properties': ['C05', 'C10', 'C11'], 'kind_free_text': 'code == published formula as commutative-ring normal forms over uninterpreted atoms; path matching in z3 QF_LIRA'},
+   {'name': 'A pyvc', 'path': 'vf/symex.py', 'serves_properties': ['C01', 'C02', 'C04', 'C05', 'C06', 'C07', 'C10', 'C12', 'C13', 'C14', 'C16', 'C17'], 'kind_free_text': 'AST -> verification conditions, modular contracts, z3/cvc5'},
+   {'name': 'B ringconf', 'path': 'vf/ring.py', 'serves_properties': ['C05', 'C07', 'C10', 'C11'], 'kind_free_text': 'code == published formula as commutative-ring normal forms over uninterpreted atoms; path matching in z3 QF_LIRA'},
    {'name': 'C effects', 'path': 'vf/effects.py', 'serves_properties': ['C08', 'C09', 'C15', 'C17', 'C18', 'C19'], 'kind_free_text': 'modular frame/effect checker and HTML provenance analysis over the real ASTs'},
    {'name': 'D fdx', 'path': 'vf/fdx.py', 'serves_properties': ['C01', 'C05', 'C06', 'C11'], 'kind_free_text': 'exhaustive evaluation of the real functions on finite colour domains (16 processes)'},
    {'name': 'E rtc', 'path': 'vf/rtc.py', 'serves_properties': ['C01', 'C02', 'C03', 'C04', 'C06', 'C08', 'C09', 'C12', 'C16', 'C18'], 'kind_free_text': 'bounded run-time contracts on the real functions with independent oracles (never counted as proved)'},
